@@ -88,6 +88,14 @@ CLAIMED = {
     note="Polynomial (quadratic) flux maps and fields on integer cell centres only: the coefficient formulas are verified, not the truncation order for non-polynomial flux maps.",
     technique="TLA+ exact integer case table enumerated by TLC, one operator-row test per case",
     design="4.20"),
+ "C17": dict(
+    text="Voxel.tla computes area, centroid and volume of lattice polygons (triangle, rectangle, concave hexagons, pentagon, dart, polygon touching the axis) with exact shoelace sums for every "
+         "starting vertex and both orientations and checks their invariance over the dihedral orbit; every orbit element is built as a real AxisymmetricVoxel (csg and mesh) and compared with the "
+         "exact rationals (1e-12); ToroidalVoxelGrid.total_volume vs the sum; the emissivity estimator must be exact for constants and, with raysect's RNG seeded, within 6 standard errors of the "
+         "area-mean (value at the exact centroid) for three linear functions per polygon.",
+    note="Lattice polygons only; unbiasedness for arbitrary emissivity functions is implied by the linear/constant tests, not decided; statistical part is seeded and deterministic per VERIF_SEED.",
+    technique="TLA+ exact shoelace orbit table enumerated by TLC, one voxel test per orbit element; seeded estimator check",
+    design="4.17"),
 }
 
 NOT_YET = {}
